@@ -232,6 +232,63 @@ def check_distances(ctx):
             ctx.violation(key, msg, {"k": "distance-pair", "c": c})
 
 
+def check_target(ctx, c):
+    """Targets.tla -> the generators of target distributions (beyond the statement of C17: reported, never an alarm)"""
+    from orquestra.quantum.distributions.BAS_dataset import bars_and_stripes_zigzag, get_bars_and_stripes_target_distribution, get_num_bars_and_stripes_patterns
+    from orquestra.quantum.distributions.target_thermal_states import get_cardinality_distribution, get_thermal_sampled_distribution, get_thermal_target_measurement_outcome_distribution
+
+    out = []
+    if c["kind"] == "bas":
+        r, cc_ = c["r"], c["c"]
+        want = {tuple(p) for p in c["patterns"]}
+        got = {tuple(int(x) for x in row) for row in bars_and_stripes_zigzag(r, cc_)}
+        if got != want:
+            out.append(("beyond:targets:bas-patterns", "bars and stripes %dx%d: %d patterns, specification %d (pictures with all rows equal or all columns equal); differing: %s" % (r, cc_, len(got), len(want), sorted(got ^ want)[:3])))
+        if get_num_bars_and_stripes_patterns(r, cc_) != c["count"]:
+            out.append(("beyond:targets:bas-count", "number of %dx%d patterns reported as %d, specification %d" % (r, cc_, get_num_bars_and_stripes_patterns(r, cc_), c["count"])))
+        random.seed(ctx.seed)
+        d = get_bars_and_stripes_target_distribution(r, cc_, 1.0).distribution_dict
+        if {tuple(k) for k in d} != want or any(abs(v - 1.0 / len(want)) > 1e-12 for v in d.values()):
+            out.append(("beyond:targets:bas-distribution", "target distribution %dx%d is not uniform on the %d patterns: %s" % (r, cc_, len(want), d)))
+        half = get_bars_and_stripes_target_distribution(r, cc_, 0.5).distribution_dict
+        nwant = max(int(len(want) * 0.5), 1)
+        if len(half) != nwant or not {tuple(k) for k in half} <= want or abs(sum(half.values()) - 1) > 1e-12:
+            out.append(("beyond:targets:bas-fraction", "half of the %dx%d patterns: %d outcomes (expected %d), all patterns: %s" % (r, cc_, len(half), nwant, {tuple(k) for k in half} <= want)))
+        return out
+    n = len(c["h"])
+    hh = np.array([float(x) for x in c["h"]])
+    jj = np.zeros((n, n))
+    for q, v in enumerate(c["J"]):
+        jj[q, q + 1] = jj[q + 1, q] = float(v)
+    temp = 1.0 / math.log(2.0)
+    d = get_thermal_target_measurement_outcome_distribution(n, temp, (hh, jj)).distribution_dict
+    want = [Fraction(p[0], p[1]) for p in c["probs"]]
+    keys = [tuple((i >> (n - 1 - q)) & 1 for q in range(n)) for i in range(2**n)]
+    if list(d.keys()) != keys or any(abs(d[k] - float(w)) > 1e-12 for k, w in zip(keys, want)):
+        out.append(("beyond:targets:thermal", "thermal target for h=%s J=%s at e^(1/T)=2: %s, specification %s" % (c["h"], c["J"], {k: round(v, 6) for k, v in d.items()}, [str(w) for w in want])))
+    np.random.seed(ctx.seed)
+    ns = 12
+    sd = get_thermal_sampled_distribution(ns, n, temp, (hh, jj)).distribution_dict
+    if list(sd.keys()) != keys or abs(sum(sd.values()) - 1) > 1e-9 or any(v > 0 and float(want[i]) == 0 for i, v in enumerate(sd.values())) or any(abs(v * ns - round(v * ns)) > 1e-9 for v in sd.values()):
+        out.append(("beyond:targets:thermal-sampled", "sampled thermal distribution for h=%s J=%s: %s" % (c["h"], c["J"], sd)))
+    else:
+        card = get_cardinality_distribution(ns, n, get_thermal_sampled_distribution(ns, n, temp, (hh, jj)))
+        if any(x < 0 or x > n for x in card):
+            out.append(("beyond:targets:cardinality", "cardinalities %s outside 0..%d" % (card, n)))
+    return out
+
+
+def check_targets(ctx):
+    quick = ctx.tier == "quick"
+    res = ctx.tlc("Targets", constants=dict(MaxDim=3 if quick else 4, MaxSpins=3 if quick else 4, Emitting=True), invariants=["BASOk", "ThermalOk"], action_constraints=["Emit"], deadlock=False, workers=4, coverage=False, timeout=1800)
+    if len(res.emitted) < 100:
+        raise TLCError("Targets exported only %d instances" % len(res.emitted))
+    for c, fails in zip(res.emitted, ctx.pmap(check_target, res.emitted, chunksize=16)):
+        ctx.count({"k": "target:" + c["kind"], "r": c.get("r"), "c": c.get("c"), "h": c.get("h"), "J": c.get("J")}, kind="target distributions (beyond the property)")
+        for key, msg in fails:
+            ctx.violation(key, msg, {"k": "target", "c": c})
+
+
 def known_k4(ctx):
     """single-subsystem outcomes >= 10 are not representable by the file format (key '10' reads back as (1, 0))"""
     from orquestra.quantum.distributions import MeasurementOutcomeDistribution, load_measurement_outcome_distribution, save_measurement_outcome_distribution
@@ -277,6 +334,7 @@ def run(ctx):
         for key, msg in fails:
             ctx.violation(key, msg, {"k": "walk", "walk": [{k: v for k, v in e.items() if not k.startswith("_")} for e in w]})
     check_distances(ctx)
+    check_targets(ctx)
     known_k4(ctx)
     ctx.judged_numerically += ["MMD symmetry / non-negativity / zero on the diagonal, clipped NLL >= entropy, symmetry of the symmetrised divergence: evaluated on the library's floats for the pairs TLC enumerates"]
     ctx.assumptions.append("marginal keys are built by joining digits: outcome values >= 10 are outside the model")
@@ -285,6 +343,10 @@ def run(ctx):
 def replay(ctx, case):
     if case.get("k") in ("k4", "finding"):
         known_k4(ctx)
+        return
+    if case.get("k") == "target":
+        for key, msg in check_target(ctx, case["c"]):
+            ctx.violation(key, msg, case)
         return
     if case.get("k") == "distance-pair":
         ctx.count({"k": "distance-pair"})
